@@ -150,6 +150,9 @@ def reshape(req):
         raise webob.exc.HTTPConflict(
             'Unable to allocate inventory: %(error)s' % {'error': exc})
 
+    allocation.delete_consumers(allocation.consumers_without_allocations(
+        new_consumers_created, allocation_objects))
+
     req.response.status = 204
     req.response.content_type = None
     return req.response
